@@ -48,9 +48,14 @@ Unbound == -1          \* no binding
 Null    == 0           \* the Sass value null; numbers are > 0
 
 FlowKinds  == {"if", "each", "for", "while"}
-BlockKinds == {"rule", "media", "atrule", "lmixin", "mixin", "function", "content", "contentm"}
+BlockKinds == {"rule", "media", "atrule", "lmixin", "lmixind", "lfunctiond", "mixin", "function", "content", "contentm"}
 Kinds      == FlowKinds \cup BlockKinds
-BindKinds  == {"each", "for", "mixin", "function", "content"}   \* kinds that may bind a variable
+BindKinds  == {"each", "for", "mixin", "function", "content", "lmixin", "lmixind", "lfunctiond"}   \* kinds that may bind a variable
+(* "lmixin": a mixin declared in place (its definition site is the enclosing block) and included at once, the    *)
+(* parameter passed explicitly; "lmixind" / "lfunctiond": a mixin / function declared in place whose parameter    *)
+(* takes its declared DEFAULT (the call omits the argument).  Parameters are local to the callee block either way. *)
+LocalDef   == {"lmixin", "lmixind", "lfunctiond"}   \* declared in place: allowed at top level and directly in rules / at-rules
+FnKinds    == {"function", "lfunctiond"}            \* bodies hold only declarations and flow control
 GlobalDef  == {"mixin", "function"}       \* defined at top level: lexical parent = global frame
 
 (* values given to bound variables: iteration values of @for / @each,      *)
@@ -58,7 +63,7 @@ GlobalDef  == {"mixin", "function"}       \* defined at top level: lexical paren
 ForVals  == <<1, 2>>
 EachVals == <<3, 4>>
 WhileVals == <<0, 0>>
-ParamVal(kind) == CASE kind = "mixin" -> 5 [] kind = "function" -> 6 [] kind = "content" -> 7
+ParamVal(kind) == CASE kind \in {"mixin", "lmixin", "lmixind"} -> 5 [] kind \in FnKinds -> 6 [] kind = "content" -> 7
 IsBoundVal(v) == v \in 1..8      \* 8: locals of the wrapper mixin of a "contentm" block, never visible to the block
 
 AllDevs == {"assign_always_local", "flow_no_frame"}
@@ -198,8 +203,8 @@ Block(prog, pc, m, s, M) ==
         ELSE
           LET parent == IF kind \in GlobalDef THEN 1 ELSE top
               s1 == Push(s, kind, parent, t.var)
-              s2 == IF kind \in {"mixin", "function", "content"} THEN BindTop(s1, t.var, ParamVal(kind)) ELSE s1
-              s3 == IF kind = "function" THEN [s2 EXCEPT !.fn = 1] ELSE s2
+              s2 == IF kind \in BindKinds THEN BindTop(s1, t.var, ParamVal(kind)) ELSE s1
+              s3 == IF kind \in FnKinds THEN [s2 EXCEPT !.fn = 1] ELSE s2
               r  == RunSeq(prog, pc + 1, m, s3, M)
           IN IF r.err = 0 THEN [Pop(r) EXCEPT !.fn = s.fn] ELSE r
   IN IF res.err = 1 THEN res
@@ -333,9 +338,9 @@ WfFrom(prog, i, stack) ==
            /\ t.arg \in Kinds
            /\ (t.var = "-" \/ (t.var \in AllVars /\ t.arg \in BindKinds))
            \* a function body holds only declarations and flow control
-           /\ ("function" \in SeqSet(stack) => t.arg \in FlowKinds)
-           \* a mixin may be declared in place only directly inside rules / at-rules
-           /\ (t.arg = "lmixin" => SeqSet(stack) \subseteq {"rule", "media", "atrule"})
+           /\ (SeqSet(stack) \cap FnKinds # {} => t.arg \in FlowKinds)
+           \* a mixin / function may be declared in place only directly inside rules / at-rules
+           /\ (t.arg \in LocalDef => SeqSet(stack) \subseteq {"rule", "media", "atrule"})
            /\ i < Len(prog) /\ prog[i + 1].op # "close"
            /\ WfFrom(prog, i + 1, Append(stack, t.arg))
       [] t.op = "close" -> stack # <<>> /\ WfFrom(prog, i + 1, SubSeq(stack, 1, Len(stack) - 1))
